@@ -276,6 +276,15 @@ def checkImplReqs (st : ProcEng) (reqs : List ImplReq) : ProcEng × List String 
           | _ => own
         let f1 := f1 ++ (if q.cmd == "connect" && sent != own then
           ["C04 proc: a connect request carries the container id of another application (" ++ sent ++ ", its own is " ++ own ++ ")"] else [])
+        -- C05: the limits advertised at EVERY connect are the daemon's maxima lowered to the agent's own settings
+        let f1 := f1 ++ (match st.defs.find? (·.1 == h) with
+          | some d =>
+            if q.cmd != "connect" then [] else
+            let adv := newHarvestLimits d.2.agentSpan d.2.agentLog d.2.agentCustom
+            let want := s!"span={adv.span.limit},log={adv.log.limit},custom={adv.custom.limit},"
+            if (q.payload.splitOn want).length > 1 || !q.payload.startsWith "CON[" then [] else
+              [s!"C05 proc: the limits advertised in a connect request ({q.payload}) are not the daemon's maxima lowered to the agent's span / log / custom settings ({want})"]
+          | none => [])
         let st := if q.cmd == "preconnect" then { st with needConnect := st.needConnect.filter (· != h),
                                                            lastAttempt := (h, st.s.now) :: st.lastAttempt.filter (·.1 != h) } else st
         (st, fails ++ f1)
